@@ -106,6 +106,10 @@ def evaluate(sub, spec, known, stats):
 
     from vlib.case import jsonable
 
+    cur = getattr(stats, "cur_file", None)
+    if cur:  # the case being evaluated survives a hard crash of this process (segfault / abort inside compiled code); see runner.run_worker
+        with open(cur, "w") as tf:
+            json.dump(jsonable(spec), tf)
     trace = os.environ.get("VERIF_TRACE_SPEC")
     if trace:  # debugging aid: the spec being evaluated survives a hard crash of the worker (abort / segfault in compiled code)
         with open(trace, "w") as tf:
@@ -241,7 +245,11 @@ def main():
     from vlib import env
 
     stats = Stats()
+    stats.cur_file = args.get("out", "") + ".cur" if args.get("out") else None
     try:
+        import faulthandler
+
+        faulthandler.enable()
         env.bootstrap(args["build"])
         if args.get("threads"):
             env.set_threads(args["threads"])
